@@ -236,9 +236,9 @@ pub fn run(ctx: &Ctx) {
     }
     // ids of a message obey the same rule
     {
-        let sp = Space::new(&[4096, 4]);
+        let sp = Space::new(&[4096, 4, 2]);
         let s2 = sp.clone();
-        ctx.run_family(Family::new("c19.message_ids", sp.size(), "all 4096 four-byte strings over the alphabet in each id position (storage ECU, header ECU, APID, CTID) of a storage-header message", move |i, loc| {
+        ctx.run_family(Family::new("c19.message_ids", sp.size(), "all 4096 four-byte strings over the alphabet in each id position (storage ECU, header ECU, APID, CTID) of a storage-header message; parsed without a filter and with a filter that admits the message (ECU id set = the expected header and storage ids)", move |i, loc| {
             let c = s2.coords(i);
             let m = msg_with(0x04, 1, Some(ext(MSTP_LOG, 4, "APP", "CTX")), payload_for(true, Some(MSTP_LOG), 0), Some(storage(1, 2, "ECU")));
             let (mut b, sites) = encode(&m);
@@ -253,8 +253,15 @@ pub fn run(ctx: &Ctx) {
             loc.evals += 1;
             loc.transitions += 1;
             loc.traces += 1;
-            loc.state(fnv64(&b), true);
-            match catch(|| dlt_message(&b, None, true).map(|(rest, pm)| (rest.len(), pm))) {
+            loc.state(mix(fnv64(&b), c[2] as u64), true);
+            let filter = if c[2] == 1 {
+                let hdr = clean_field(&b[sites.sites.iter().find(|s| s.2 == "ecu").unwrap().0..][..4]);
+                let st = clean_field(&b[12..16]);
+                Some(dlt_core::filtering::ProcessedDltFilterConfig { min_log_level: None, app_ids: None, ecu_ids: Some([hdr, st, "ECU".to_string()].into_iter().collect()), context_ids: None, app_id_count: 0, context_id_count: 0 })
+            } else {
+                None
+            };
+            match catch(|| dlt_message(&b, filter.as_ref(), true).map(|(rest, pm)| (rest.len(), pm))) {
                 Ok(Ok((0, ParsedMessage::Item(pm)))) => {
                     let got = match c[1] {
                         0 => pm.storage_header.as_ref().map(|s| s.ecu_id.clone()),
